@@ -671,6 +671,76 @@ theorem fmtspec_cluster_fill_fixed :
       some { align := .center, minWidth := some 7, fill := some [53, 0xCC, 0x81] } ∧
     okOpts (parse gToy [42, 94, 56, 46, 50, 63] true) = okOpts (parse gToy [42, 94, 56, 46, 50, 63]) := by decide
 
+/-! ## Every value kind × every representation (`renderX`) -/
+
+def okX : Except PErr Bytes → Option Bytes
+  | .ok b => some b
+  | .error _ => none
+
+def errX : Except PErr Bytes → Option PErr
+  | .ok _ => none
+  | .error e => some e
+
+/-- 1234.5, 1.23456, 2.75, 255.0, 0.125, 2.5 with their shortest decimals -/
+def f1234_5 : XVal := .float 0x40934A0000000000 { digits := [49, 50, 51, 52, 53], exp := 3 }
+def f1_23456 : XVal := .float 0x3FF3C0C1FC8F3238 { digits := [49, 50, 51, 52, 53, 54], exp := 0 }
+def f2_75 : XVal := .float 0x4006000000000000 { digits := [50, 55, 53], exp := 0 }
+def f255 : XVal := .float 0x406FE00000000000 { digits := [50, 53, 53], exp := 2 }
+def f0_125 : XVal := .float 0x3FC0000000000000 { digits := [49, 50, 53], exp := -1 }
+def f2_5 : XVal := .float 0x4004000000000000 { digits := [50, 53], exp := 0 }
+
+/-- without the precision repair, the old value kinds render exactly as `render` says (the theorems about
+`render` / `applyFmt` above speak about `renderX` too) -/
+theorem renderX_base (g : Bytes → Nat) (v : FVal) (o : Option Opts) (cfg : FmtCfg) (h : cfg.precRepr = false) :
+    renderX g (.base v) o cfg = .ok (render g v o) := by
+  cases v <;> simp [renderX, h]
+
+/-- floats: plain display, `e` and `E` (they differ in the exponent letter — seeded change C15-mut12), fixed
+precision with ties to even on the exact binary value, integral floats through the radix representations -/
+theorem format_float_facts :
+    okX (renderX gFirstChar f1234_5 (some {})) = some [49, 50, 51, 52, 46, 53] ∧                          -- 1234.5
+    okX (renderX gFirstChar f1234_5 (some { rep := some .expLower })) = some [49, 46, 50, 51, 52, 53, 101, 51] ∧  -- 1.2345e3
+    okX (renderX gFirstChar f1234_5 (some { rep := some .expUpper })) = some [49, 46, 50, 51, 52, 53, 69, 51] ∧   -- 1.2345E3
+    okX (renderX gFirstChar f255 (some {})) = some [50, 53, 53, 46, 48] ∧                                 -- 255.0
+    okX (renderX gFirstChar f0_125 (some { precision := some 2 })) = some [48, 46, 49, 50] ∧              -- 0.12
+    okX (renderX gFirstChar f2_5 (some { precision := some 0 })) = some [50] ∧                            -- 2
+    okX (renderX gFirstChar f255 (some { rep := some .hexLower })) = some [102, 102] ∧                    -- ff
+    okX (renderX gFirstChar f1234_5 (some { rep := some .debug })) = some [49, 50, 51, 52, 46, 53] := by decide
+
+/-- **precision_repr_witness** (F-C15-15): a precision given with `e` / `?` is dropped; with
+requests/C15-fix-13.diff applied it is honoured (exact value, ties to even, exponent bumped when the
+mantissa rounds up to 10) -/
+theorem precision_repr_witness :
+    okX (renderX gFirstChar f1_23456 (some { precision := some 2, rep := some .expLower }))
+      = some [49, 46, 50, 51, 52, 53, 54, 101, 48] ∧                                                       -- 1.23456e0
+    okX (renderX gFirstChar f1_23456 (some { precision := some 2, rep := some .expLower }) { precRepr := true })
+      = some [49, 46, 50, 51, 101, 48] ∧                                                                   -- 1.23e0
+    okX (renderX gFirstChar f1_23456 (some { precision := some 2, rep := some .debug }) { precRepr := true })
+      = some [49, 46, 50, 51] ∧                                                                            -- 1.23
+    okX (renderX gFirstChar (.base (.int 1250)) (some { precision := some 1, rep := some .expLower }))
+      = some [49, 46, 50, 53, 101, 51] ∧                                                                   -- 1.25e3
+    okX (renderX gFirstChar (.base (.int 1250)) (some { precision := some 1, rep := some .expLower }) { precRepr := true })
+      = some [49, 46, 50, 101, 51] ∧                                                                       -- 1.2e3
+    okX (renderX gFirstChar (.base (.int 995)) (some { precision := some 1, rep := some .expUpper }) { precRepr := true })
+      = some [49, 46, 48, 69, 51] := by decide                                                             -- 1.0E3
+
+/-- **radix_float_witness** (F-C15-16): `x` on 2.75 prints `2`; with requests/C15-fix-14.diff applied it is a
+runtime error, while a float that is an integer value keeps working -/
+theorem radix_float_witness :
+    okX (renderX gFirstChar f2_75 (some { rep := some .hexLower })) = some [50] ∧
+    errX (renderX gFirstChar f2_75 (some { rep := some .hexLower }) { radixStrict := true }) = some .reprNotInteger ∧
+    okX (renderX gFirstChar f255 (some { rep := some .hexUpper }) { radixStrict := true }) = some [70, 70] := by decide
+
+/-- containers and objects: strings are quoted inside containers, `?` reaches the elements (`@debug`), the
+integer-only representations leave other kinds alone, precision cuts by grapheme clusters -/
+theorem format_container_facts :
+    okX (renderX gFirstChar (.tuple [.int 1, .str [97], .null]) (some {}))
+      = some [40, 49, 44, 32, 39, 97, 39, 44, 32, 110, 117, 108, 108, 41] ∧                                -- (1, 'a', null)
+    okX (renderX gFirstChar (.map [([97], .int 1)]) (some { rep := some .hexLower })) = some [123, 97, 58, 32, 49, 125] ∧  -- {a: 1}
+    okX (renderX gFirstChar (.tuple [.obj [79] [68], .int 5]) (some { rep := some .debug })) = some [40, 68, 44, 32, 53, 41] ∧  -- (D, 5)
+    okX (renderX gFirstChar (.obj [79, 66, 74] [68]) (some { precision := some 2 })) = some [79, 66] ∧     -- OB
+    okX (renderX gFirstChar (.list []) (some {})) = some [91, 93] := by decide
+
 /-! ## to_number -/
 
 /-- **to_number is exact on rendered integers**: the decimal text of every `i64` (what `'{n}'` produces)
